@@ -18,7 +18,7 @@ if [ -x $OUT/${L}_demo/run.sh ]; then
   timeout 600 $OUT/${L}_demo/run.sh "$D/wt" >$D/demo-clean.log 2>&1; rc_clean=$?
 else rc_clean=-1; fi
 (cd "$D/wt" && git status --short | head -3 >> $D/demo-clean.log)
-if ! git -C "$D/wt" apply $OUT/$L.diff; then res "patch does not apply"; git -C /repo worktree remove --force "$D/wt"; rm -rf $D; exit 3; fi
+if ! git -C "$D/wt" apply $OUT/$L.diff 2>/dev/null && ! { git -C "$D/wt" apply -3 $OUT/$L.diff >/dev/null 2>&1 && [ -z "$(git -C "$D/wt" diff --name-only --diff-filter=U)" ]; }; then res "patch does not apply"; git -C /repo worktree remove --force "$D/wt"; rm -rf $D; exit 3; fi
 (cd "$D/wt" && go build ./... && go vet ./... ) >$D/build.log 2>&1; rc_build=$?
 suite=ok
 for i in 1 2 3; do (cd "$D/wt" && go test -count=1 ./... ) >$D/suite$i.log 2>&1 || suite=FAIL; done
